@@ -1,4 +1,5 @@
 import MpVerif.C02.ModelCheck
+import MpVerif.C02.LemmasSites
 /-!
 # C02 lemmas: a small Hoare logic over the parser monad `P`
 
